@@ -28,6 +28,9 @@ Decides:
                    earlier field fails, so an inner command's help output can be lost (known finding).
  K marker          the item pre-consumed as `--` is the one at the position it was tokenized into (a word index would mark an earlier
                    item - possibly the help flag - as consumed when a word before `--` expands into two items; shared with C09).
+ H final first     the help/version lookup of a level is reachable only when the inner parser did not end with a final answer.
+ F repetition      a failure inside some/many/.. is returned, never dropped with the values collected so far (an inner command's help would vanish with it).
+ B forkers         who may clone the State (see C05).
 Does not decide: which of several failing fields is reported for a given line."""
 import re
 from core import *
